@@ -470,6 +470,16 @@ switchpos:
 		case token.GreaterEq:
 			return Bool(bval >= v), nil
 		}
+	case Float:
+		ret, err := Float(bval).BinaryOp(tok, v)
+		if err == nil || err == ErrZeroDivision {
+			return ret, err
+		}
+	case Char:
+		ret, err := Char(bval).BinaryOp(tok, v)
+		if err == nil || err == ErrZeroDivision {
+			return ret, err
+		}
 	case Bool:
 		if v {
 			right = Int(1)
